@@ -367,7 +367,47 @@ def rule_consume_c06(ctx):
     rule_consume(ctx, "C06.CONSUME")
 
 
+def rule_record_gates(ctx):
+    """RECORD-GATES: meaning of the record-type checks of _getMsg and of the renegotiation_info checks
+    on the initial ClientHello, over boundary values (condeval.outcomes; nothing is run)."""
+    from .common import spec_rows
+    R = "C06.RECORD-GATES"
+    CT = {"ContentType.handshake": [22], "ContentType.change_cipher_spec": [20], "ContentType.alert": [21],
+          "ContentType.application_data": [23]}
+
+    def d(*ds):
+        out = {}
+        for x in ds:
+            out.update(x)
+        return out
+    spec_rows(ctx, R, TLSREC + "_getMsg", [
+        dict(what="TLS 1.3 compatibility ChangeCipherSpec must be the single byte 1",
+             dom=d(CT, {"self.version": [(3, 4)], "ContentType.handshake in expectedType": [True],
+                        "self._middlebox_compat_mode": [True], "recordHeader.type": [20], "ccs.type": [0, 1, 2]}),
+             abort=lambda e: e["ccs.type"] != 1,
+             msg="a TLS 1.3 middlebox-compatibility ChangeCipherSpec with another value is an unexpected message"),
+        dict(what="TLS 1.3: no other record type while a handshake message is partially received",
+             dom=d(CT, {"self.version": [(3, 3), (3, 4)], "ContentType.handshake in expectedType": [True],
+                        "self._middlebox_compat_mode": [False], "recordHeader.type": [21, 22, 23],
+                        "self._defragmenter.buffers[ContentType.handshake]": [b"", b"\x0b\x00"]}),
+             abort=lambda e: e["self.version"] > (3, 3) and e["recordHeader.type"] != 22
+             and bool(e["self._defragmenter.buffers[ContentType.handshake]"]),
+             when=lambda e: e["self.version"] > (3, 3) or e["recordHeader.type"] == 22,
+             msg="TLS 1.3 handshake messages must not be interleaved with records of another type"),
+    ])
+    for fn in ("_handshakeServerAsyncHelper", "_serverGetClientHello"):
+        spec_rows(ctx, R, TLSCONN + fn, [
+            dict(what="renegotiation_info of an initial ClientHello is empty",
+                 dom={"renegoExt": [True], "renegoExt.renegotiated_connection": [b"", b"\x01"], "session": [True],
+                      "clientHello.session_id": [b"s"], "sessionCache": [True], "version": [(3, 3)],
+                      "result == None": [False]},
+                 abort=lambda e: bool(e["renegoExt.renegotiated_connection"]),
+                 msg="a ClientHello claiming to renegotiate (non-empty renegotiation_info) must be refused: "
+                     "this implementation never renegotiates")])
+
+
 RULES = [
+    ("C06.RECORD-GATES", "quick", rule_record_gates),
     ("C06.GETMSG", "quick", rule_getmsg),
     ("C06.ARGS", "quick", rule_args),
     ("C06.CCS", "quick", rule_ccs),
